@@ -113,7 +113,9 @@ Token* RegxParser::parse(const XMLCh* const regxStr, const int options) {
         XMLSize_t refSize = fReferences->size();
         for (XMLSize_t i = 0; i < refSize; i++) {
 
-            if (fNoGroups <= fReferences->elementAt(i)->fReferenceNo) {
+            // groups are numbered from 1, there is no back reference \0
+            if (fReferences->elementAt(i)->fReferenceNo < 1
+                || fNoGroups <= fReferences->elementAt(i)->fReferenceNo) {
                 ThrowXMLwithMemMgr(ParseException,XMLExcepts::Parser_Parse2, fMemoryManager);
             }
         }
